@@ -174,3 +174,35 @@ func TestValueSemantics(t *testing.T) {
 		}
 	})
 }
+
+// Variable contents are values, too: dedicated generator with its own model (gen/variable.go).
+func TestVariableContents(t *testing.T) {
+	defer vf.AfterCheck(t)
+	vf.Checks(96, 1500)
+	rapid.Check(t, func(t *rapid.T) {
+		src, expect, feats := gen.GenerateVariableProgram(t, rapid.IntRange(0, 3).Draw(t, "main-in-function") > 0)
+		c := Case{Source: src, Expect: expect, Levels: []int{0, 1, 2}}
+		var fl []string
+		for f := range feats {
+			c.Features = append(c.Features, f)
+			fl = append(fl, "f:"+f)
+		}
+		sort.Strings(c.Features)
+		f, outcome := judge(c)
+		if strings.HasPrefix(outcome, "frontend-rejected") {
+			vf.Count("generator:frontend-rejected")
+			vf.Sample("frontend-rejected(generator defect)", map[string]string{"why": outcome, "source": src})
+			t.Logf("generator defect: %s\n%s", outcome, src)
+			t.Skip("rejected")
+		}
+		if vf.Report(t, f) {
+			return
+		}
+		if strings.HasPrefix(outcome, "inconclusive") {
+			vf.Count(outcome)
+			return
+		}
+		vf.Case(src, true, append(fl, "variable-scenario")...)
+		vf.Sample("variable-scenario", map[string]any{"source": src, "expected_stdout": expect})
+	})
+}
